@@ -41,7 +41,7 @@ def format_exception(exc: BaseException, type: Union[type, None]) -> str:
             tn = type.__name__ if hasattr(type, "__name__") else repr(type)
             res = f"invalid value for type, expected {tn}"
     elif isinstance(exc, ForbiddenExtraKeysError):
-        res = f"extra fields found ({', '.join(exc.extra_fields)})"
+        res = f"extra fields found ({', '.join(map(str, exc.extra_fields))})"
     elif isinstance(exc, AttributeError) and exc.args[0].endswith(
         "object has no attribute 'items'"
     ):
